@@ -13,7 +13,8 @@ impl Monitor for C02 {
         "C02"
     }
     fn configs(&self, t: Tier) -> Vec<&'static str> {
-        t.pick(vec!["release"], vec!["release", "checked"])
+        let _ = t;
+        vec!["release", "checked"]
     }
     fn run(&self, ctx: &mut Ctx) {
         let sz = match ctx.tier {
